@@ -6,8 +6,8 @@ package main
 import (
 	"fmt"
 	"go/token"
-	"os"
 	"go/types"
+	"os"
 	"strings"
 
 	"golang.org/x/tools/go/packages"
